@@ -13,7 +13,7 @@ from ..common import coq_eval, harness
 from . import c14_gen as G, c14_oracle as O
 
 HEADER = ("From Coq Require Import List NArith ZArith Bool.\n"
-          "From PV Require Import Lib.ListX Model.FmtLit Model.FmtPratt Model.Fmt Model.FmtInst.\n"
+          "From PV Require Import Lib.ListX Model.FmtLit Model.FmtPratt Model.Fmt Model.FmtStmt Model.FmtInst.\n"
           "Import ListNotations.\nLocal Open Scope N_scope.\n")
 
 BINOPS = ["Mul", "DivInt", "DivFloat", "Mod", "Pow", "Add", "Sub", "Eq", "Ne", "Gt", "Lt", "Gte", "Lte", "RegexSearch", "And", "Or", "Coalesce"]
@@ -153,6 +153,54 @@ def kind_term(j):
     raise Unsupported("expr kind %s" % sorted(j.keys()))
 
 
+def stmt_term(st):
+    """pr::Stmt JSON -> model statement (Model/FmtStmt.v); doc comments are not part of the trees"""
+    anns = [term(a["expr"]) for a in st.get("annotations") or []]
+    if "VarDef" in st:
+        v = st["VarDef"]
+        if v.get("ty") is not None:
+            raise Unsupported("let with a type annotation")
+        if v["kind"] == "Let":
+            return ("SLet", anns, codes(v["name"]), ("Some", term(v["value"])) if v.get("value") is not None else "None")
+        if v.get("value") is None:
+            raise Unsupported("main without value")
+        if v["kind"] == "Main":
+            return ("SMain", anns, term(v["value"]))
+        if v["kind"] == "Into":
+            return ("SInto", anns, term(v["value"]), codes(v["name"]))
+        raise Unsupported("VarDef kind " + str(v["kind"]))
+    if "ImportDef" in st:
+        d = st["ImportDef"]
+        return ("SImport", anns, ("Some", codes(d["alias"])) if d.get("alias") is not None else "None", [codes(x) for x in d["name"]])
+    if "ModuleDef" in st:
+        d = st["ModuleDef"]
+        return ("SModule", anns, codes(d["name"]), [stmt_term(x) for x in d["stmts"]])
+    raise Unsupported("statement kind %s" % sorted(k for k in st if k not in ("span", "annotations", "doc_comment")))
+
+
+def prog_term(pl):
+    return [stmt_term(st) for st in pl["stmts"]]
+
+
+def prog_known(stmts):
+    """python mirror of FmtStmt.known_prog on the JSON: (adjacent main pipelines, aliased pipeline value)"""
+    def is_main(st):
+        return isinstance(st.get("VarDef"), dict) and st["VarDef"].get("kind") == "Main"
+
+    def bare_pipe(st):
+        return isinstance(st.get("VarDef"), dict) and st["VarDef"].get("kind") in ("Main", "Into") and not st.get("annotations")
+    adj = any(is_main(a) and bare_pipe(b) for a, b in zip(stmts, stmts[1:]))
+    al = False
+    for st in stmts:
+        v = st.get("VarDef")
+        if isinstance(v, dict) and v.get("kind") in ("Main", "Into") and isinstance(v.get("value"), dict) and "Pipeline" in v["value"] and v["value"].get("alias") is not None:
+            al = True
+        if isinstance(st.get("ModuleDef"), dict):
+            a2, l2 = prog_known(st["ModuleDef"]["stmts"])
+            adj, al = adj or a2, al or l2
+    return adj, al
+
+
 def coq(t):
     """term -> Coq concrete syntax"""
     if isinstance(t, bool):
@@ -220,6 +268,14 @@ def canon_tokens(toks):
             continue
         out.append(t)
 
+    return range_flags(out)
+
+
+def range_flags(out):
+    """`..` tokens with the bind flags the parser looks at, given their neighbours"""
+    def ctl(t, chars):
+        return isinstance(t, dict) and t.get("Control") in tuple(chars)
+
     def ends_operand(t):
         return isinstance(t, dict) and (any(k in t for k in ("Ident", "Literal", "Param", "Interpolation")) or ctl(t, CLOSERS))
 
@@ -272,6 +328,12 @@ def model_tokens(toks, symidx):
             out.append("(TA (AParam %s))" % coq(codes(t["Param"])))
         elif isinstance(t, dict) and "Range" in t:
             out.append("(TRg %s %s)" % (coq(t["Range"][0]), coq(t["Range"][1])))
+        elif t == "NewLine":
+            out.append("(TNL 0%nat)")
+        elif t == "Annotate":
+            out.append("TAnn")
+        elif isinstance(t, dict) and t.get("Keyword") in ("let", "module", "import", "into"):
+            out.append("(TKw K%s)" % t["Keyword"].capitalize())
         elif isinstance(t, dict) and "Keyword" in t:
             if t["Keyword"] == "case" and nxt == {"Control": "["}:
                 out.append("(TOpen GCase)")
@@ -476,7 +538,113 @@ def run(ck, info, pr):
         if got != unlist(want):
             ck.disagreement("parser model differs from prql_to_pl", {"src": "let v = " + s + "\n", "model": str(val)[:400], "real": str(want)[:400]}, None)
 
+    run_programs(ck, symidx)
     run_literals(ck, info)
+
+
+PROGRAMS = [
+    "let x = 1\n", "let x\n", "let `a b` = f 1 2\nlet y = (a | f)\n", "from t\nselect a\n", "from t | select a | into z\n", "from t\ninto `my z`\n",
+    "f a\n", "x = f a\n", "(from t | select a)\n", "{a = 1}\n", "func x -> x\n", "x = func y -> y + 1\n", "a + b\n", "-a\n", "..3\n", "[1, 2]\n", "case [a => b]\n",
+    "import a.b\nimport q = a.`b c`.d\nimport `let` = m\n", "module m {\n}\n", "module m {\n  let a = 1\n}\n",
+    "module m {\n  let a = 1\n  module n {\n    let b\n    from t | select c\n    module o {\n    }\n  }\n  import x.y\n}\nfrom m.n.t\n",
+    "@{a = 1}\nlet x = 1\n", "@(f x)\n@{b = 2}\n@deprecated\nfrom t\nselect a\n", "@(x = a)\n@(func y -> y)\n@(-a)\n@a.b\nlet v = 2\n",
+    "module m {\n  @{a = 1}\n  let x = 1\n\n  @{b = 2}\n  from t\n  into y\n}\n",
+    "from a\nlet x = 1\nfrom b\nselect c\n", "from a\n@{x = 1}\nfrom b\n", "from a\nimport b\nfrom c | into d\nmodule e {\n}\nfrom f\n",
+    "let f = func x y:1 -> x + y\nfrom t\nderive {q = f a, r = f y:2 b}\n", "let a = (x = 1)\n", "from t\nselect {x = a}\ninto r\nlet y = r\n",
+    # the two known classes
+    "from a\n#! second query\nfrom b\nselect x\n", "from a\n#! doc\nfrom b\ninto c\n", "module m {\n  from a\n  #! d\n  from b\n}\n", "from a\n#! d\n@{x = 1}\nfrom b\n",
+    "x = (from a | select b)\n", "x = (from a | select b)\ninto y\n", "module m {\n  x = (a | f)\n}\n", "(x = (a | f))\n", "x = (a)\n",
+]
+
+
+def run_programs(ck, symidx):
+    """statement layer: Model/FmtStmt.v fmt_prog / parse_prog / known_prog against pl_to_prql / prql_to_pl on whole programs"""
+    from . import c14_prog as P
+    rng = ck.rng
+    cases = [("corr-prog-directed", s) for s in PROGRAMS]
+    for f in ck.findings:
+        r = f.get("replay", {})
+        for s in ([r["src"]] if "src" in r else []) + list(r.get("srcs", [])):
+            cases.append(("corr-prog-directed", s))
+    P.CLEAN[0] = True
+    for _ in range(ck.n(300, 4000)):
+        cases.append(("corr-prog-syntactic", P.syntactic(rng)))
+    for _ in range(ck.n(120, 2000)):
+        cases.append(("corr-prog-compilable", P.compilable(rng)))
+    P.CLEAN[0] = False
+    for _ in range(ck.n(120, 2000)):
+        cases.append(("corr-prog-hostile", P.syntactic(rng)))
+    P.CLEAN[0] = True
+    answers = harness("c14", [{"src": s, "targets": [], "compile": False} for _, s in cases])
+    todo = []
+    for (stream, src), a in zip(cases, answers):
+        if not isinstance(a, dict) or "pl" not in a or "fmt" not in a:
+            ck.stat(stream, "skipped:no-parse")
+            continue
+        try:
+            t = prog_term(O.strip(a["pl"]))
+        except Unsupported as ex:
+            ck.stat(stream, "skipped:outside-model:" + str(ex).split(" ")[0])
+            continue
+        todo.append((stream, src, t, a))
+    exprs = ["(fmt_prog_text %s, parse_prog_prql %d (fmt_prog_toks %s), known_prog %s, wf_prog %s)" % (coq(t), FUEL, coq(t), coq(t), coq(t)) for _, _, t, _ in todo]
+    vals = coq_eval(HEADER, exprs)
+    texts = ["".join(chr(c) for c in v[0]) if isinstance(v, tuple) else "" for v in vals]
+    back = harness("c14", [{"src": mt, "targets": [], "compile": False} for mt in texts])
+    lexed = harness("c14lex", [{"src": a["fmt"]} for _, _, _, a in todo])
+
+    def lines(x):
+        return [ln.rstrip() for ln in x.split("\n")]
+    ptodo = []
+    for (stream, src, t, a), v, mt, b, lx in zip(todo, vals, texts, back, lexed):
+        ck.count(stream, src)
+        pl = O.strip(a["pl"])
+        adj, al = prog_known(pl["stmts"])
+        known_m, wf_m = v[2], v[3]
+        real_ok = "pl2" in a and O.canon(O.strip(a["pl2"])) == O.canon(pl)
+        model_rt = isinstance(v[1], tuple) and v[1][0] == "Some" and unlist(v[1][1]) == unlist(t)
+        case = {"src": src, "real_fmt": a["fmt"], "model_fmt": mt}
+        if not wf_m:
+            ck.disagreement("a parsed program is not well-formed in the model (wf_prog = false)", case, None)
+            continue
+        if known_m != (adj or al):
+            ck.disagreement("known_prog of the model differs from its python mirror", dict(case, model_known=known_m, python_known=[adj, al]), None)
+            continue
+        if model_rt == known_m:
+            # contradicts fmt_program_roundtrip_partial (or the refutations would be about nothing)
+            ck.disagreement("model: parse_prog (fmt_prog p) = p does not coincide with `not known_prog p`", dict(case, model_roundtrip=model_rt, known=known_m), None)
+            continue
+        same_text = lines(mt) == lines(a["fmt"])
+        if same_text:
+            ck.stat(stream, "exact-text-compared")
+        else:
+            # the real output is wrapped at width 50: texts are not comparable; the model's text must parse -- by the real
+            # parser -- to the source tree exactly when the real text does
+            ck.stat(stream, "wrapped:ast-compared")
+            model_ok = isinstance(b, dict) and "pl" in b and O.canon(O.strip(b["pl"])) == O.canon(pl)
+            if model_ok != real_ok:
+                ck.disagreement("model program text and real program text disagree on whether they parse back to the source tree", dict(case, real_roundtrips=real_ok, model_roundtrips=model_ok), None)
+                continue
+        ck.stat(stream, "roundtrip:" + ("ok" if real_ok else "lost") + (":known-class" if known_m else ""))
+        if real_ok != model_rt:
+            ck.disagreement("program round trip: model and implementation disagree", dict(case, real_roundtrips=real_ok, model_roundtrips=model_rt, known=known_m), None)
+            continue
+        if not real_ok:
+            fid = "C14-doc-comment-split" if adj else "C14-main-pipeline-alias"
+            ck.disagreement("formatting changes the program (statement layer)", case, (lambda c, fid=fid: fid))
+        # the statement parser model on the real lexer's tokens of the (unwrapped) real output
+        if same_text and "pl2" in a and "ok" in lx:
+            try:
+                toks = range_flags([x for x in lx["ok"] if x != "Start" and not (isinstance(x, dict) and ("Comment" in x or "LineWrap" in x or "DocComment" in x))])
+                ptodo.append((stream, a["fmt"], model_tokens(toks, symidx), prog_term(O.strip(a["pl2"]))))
+            except Unsupported:
+                ck.stat(stream, "parser:skipped:outside-model")
+    pv = coq_eval(HEADER, ["parse_prog_prql %d %s" % (FUEL, m) for _, _, m, _ in ptodo])
+    for (stream, text, m, want), val in zip(ptodo, pv):
+        ck.count("corr-prog-parser", text)
+        got = unlist(val[1]) if isinstance(val, tuple) and val[0] == "Some" else None
+        if got != unlist(want):
+            ck.disagreement("statement parser model differs from prql_to_pl", {"src": text, "model": str(val)[:400], "real": str(want)[:400]}, None)
 
 
 def drop_parens(rng, s):
